@@ -154,6 +154,14 @@ static void run(Src &s) {
         size_t w = s.below(8);
         step = std::string("setBool([") + esc(sec) + "]," + key + "," + words[w] + ")";
         bool existed = m.lookup(sec, key) != nullptr;
+        if (existed && s.chance(12)) {
+          // a word that is not a boolean is refused; a refused set is not a set: the entry keeps its text
+          step = std::string("setBool([") + esc(sec) + "]," + key + ",maybe)";
+          e = econf_setBoolValue(kf, sarg, key.c_str(), "maybe");
+          VF_CHECK(e != ECONF_SUCCESS, "junk-accepted", log << step << " succeeded");
+          g_case.tag("refused_boolean_set");
+          break;
+        }
         e = econf_setBoolValue(kf, sarg, key.c_str(), words[w]);
         VF_CHECK(e == ECONF_SUCCESS, "set-failed", log << step << " rc=" << e);
         m.set(sec, key, truth[w] ? "true" : "false");
